@@ -95,7 +95,12 @@ Definition c05_fp_ok (f : vfp) : bool :=
   forallb (fun g => 1 <=? fg_size g) (f_segs f) && (0 <=? f_rto_retx f) &&
   (is_remote_fin_or_later (f_state f) || notsent_suffix (f_segs f) false) && (1 <=? f_mss f).
 
-(* the fingerprint a poll leaves when it ends the connection is not monitored (finding T1) *)
+(* the fingerprint a poll leaves when it ends the connection (Ready) is not monitored: the C05
+   theorems are about calls of send_tx_queue in a connection that goes on, and c05_fp_ok of an
+   ended connection is nobody's hypothesis.  (This exemption used to cite finding T1 = D17; that
+   defect, repaired since, skipped a reset of the RTO counter, the ring truncation and calc_pipe,
+   none of which decides a conjunct of c05_fp_ok; the exemption is kept because the stronger
+   monitor is not a theorem of the model, not because of T1.) *)
 Definition c05_monitor_ok (cfg : vconfig) (st : fstep) : bool :=
   c05_fp_ok (fs_pre st) &&
   match fs_result st with
